@@ -13,14 +13,23 @@ reference semantics of ref/irarith.py.  Obligations per explored path of the pas
   value-agrees         whenever the original expression is defined (no division by zero, shift
                        count inside [0, width)), the IR after the pass is defined and denotes the
                        same value - for all constant operands and, for expressions with a
-                       run-time operand y (chains), for ALL values of y as well
+                       run-time operand y (chains), for ALL values of y as well.
+                       For all-constant trees the obligation is split per node of the source tree
+                       (labels value-agrees@<i>:<node>): "what the pass put in place of the node
+                       denotes the node's operator applied to what it put in place of the
+                       operands"; by induction over the tree the conjunction is the end-to-end
+                       statement, and every single obligation shares its operand terms with the
+                       pass's own computation, which keeps multiplier/divider reasoning out of
+                       the solver.
   consts-in-range      every ir.Const present after the pass lies inside its type's range
-  exception-only-if-undefined
-                       an exception escaping the pass is tolerated only for operand values for
-                       which the source expression is undefined (premise of the property)
-
-An expression made only of operators of ConstantFolder.ops that is NOT folded makes the harness
-fail as vacuous (engine error, exit 3) rather than pass silently.
+  folds-when-defined   an operator node with constant operands that the pass lists in
+                       ConstantFolder.ops (or a cast of a constant) is left unfolded only for operand
+                       values for which it is undefined (remainder by zero, shift count outside
+                       [0, width)): the compile-time evaluation exists wherever the property speaks
+                       about it (also the guard against a vacuous check)
+  pass-does-not-crash  no exception escapes the pass for ANY constant values, undefined operations
+                       included (they are to be left in the IR for run time); a CompilerError is
+                       tolerated only where the source expression is undefined
 """
 import os
 from symx.harness import Harness
@@ -44,7 +53,8 @@ BOUNDS = {
               "run-time operand y of chains": "every value of the type (symbolic)",
               "shapes": "c op c (12 operators x 8 types); cast(c) for all 64 type pairs; (y op1 c) op2 c for op1,op2 in +,- "
                         "incl. constant sub-expressions, swapped operands and 3-link chains; depth-2 constant trees "
-                        "(c op1 c) op2 c over the 6 folded operators on i8,i32,u16,u64 (one block) and i16,u8 (two blocks); "
+                        "(c op1 c) op2 c over all 36 pairs of the 6 folded operators on i8,i32 (one block) and u16,u64 (two blocks, "
+                        "evaluation through the recursive eval_const); "
                         "op(cast c, c), cast(c op c); CJump of two constants (6 conditions x 8 types); x+0, 0+x, x*1"},
     "thorough": {"types": TYNAMES, "constant operands": "every value of the type (symbolic)",
                  "shift/rotate count operand": "[max(type min, -width), min(type max, width+7)]",
@@ -56,16 +66,19 @@ BOUNDS = {
 OUTSIDE = ["floating-point and pointer constants (no symbolic float in the engine)",
            "shift counts beyond width+7 or below -width (undefined operations; Python big-integer shifts of that size are not modelled)",
            "expression trees deeper than 2 operators / chains longer than 3 links",
-           "behaviour for undefined operand values other than: no out-of-range constant is produced (a ValueError / "
-           "ZeroDivisionError escaping the pass for a negative shift count / zero divisor is reported as a note, not as a failure)"]
+           "what an undefined operation left in the IR does at run time (only: it is not folded, nothing crashes, no out-of-range constant appears)"]
 ASSUMPTIONS = ["IR integer semantics as written in /verif/ref/irarith.py (two's complement wrap-around; / and % truncate toward zero "
                "as in ppci's own IR interpreter ir2py (idiv/irem), the C front end's lowering and the x86-64/RISC-V/wasm back ends; "
                "shift count outside [0,width), division by zero: undefined = premise)",
                "operands of the source expression lie inside the range of their IR type",
+               "only if the analysed code calls math.fmod on constants (the pinned code does not): int->double conversion is "
+               "round-to-nearest-even to 53 significant bits and C fmod is exact (IEEE 754), modelled in props/C38.py:_SymMath, "
+               "validated against the real math.fmod on every explored path",
                "the reading back of the IR after the pass (props/C38.py describe/evaluate) follows the operand slots "
                "Binop.a/.b, Cast.src, Const.value, Return.result, Jump.target"]
 SHIMS_USED = ["isinstance", "int", "bool"]
-JOB_TIMEOUT = {"quick": 170, "thorough": 900}
+JOB_TIMEOUT = {"quick": 280, "thorough": 900}
+TASKS_PER_CHILD = 40
 
 
 # ---------------------------------------------------------------------------------------------
@@ -214,6 +227,44 @@ def _shape_types(e):
 
 
 # ---------------------------------------------------------------------------------------------
+class _SymMath:
+    """Stand-in for the `math` module inside the analysed ppci modules (only matters if the code under
+    analysis calls math.fmod on constant operands; the pinned ConstantFolder does not).  For symbolic
+    integers: exact model of the int -> IEEE-754 double conversion (round to nearest, ties to even,
+    53 significant bits; |x| < 2**1023 so no overflow) followed by C fmod, which is exact: the
+    result is the truncating remainder of the two rounded values, an integral double, represented
+    here by the integer it equals.  Everything else is delegated to the real module."""
+
+    def __getattr__(self, name):
+        import math
+        return getattr(math, name)
+
+    @staticmethod
+    def to_double(x):
+        if type(x) is not core.SymInt:
+            return x
+        m = abs(x)
+        top = max(abs(x.lo), abs(x.hi)).bit_length()
+        r = m
+        for k in range(top - 53, 0, -1):        # m has exactly 53+k significant bits
+            q = m >> k
+            rem = m & ((1 << k) - 1)
+            half = 1 << (k - 1)
+            up = sym_or(rem > half, sym_and(rem == half, (q & 1) == 1))
+            r = ite(sym_and(m >= (1 << (52 + k)), m < (1 << (53 + k))), (q + ite(up, 1, 0)) << k, r)
+        return ite(x < 0, -r, r)
+
+    def fmod(self, x, y):
+        import math
+        if not core.any_sym(x, y):
+            return math.fmod(x, y)
+        xf, yf = self.to_double(x), self.to_double(y)
+        if yf == 0:
+            raise ValueError("math domain error")
+        r = abs(xf) % abs(yf)
+        return ite(xf < 0, -r, r)
+
+
 class ExprHarness(Harness):
     """one expression shape through one real pass"""
     shim_modules = ("ppci.ir", "ppci.opt.constantfolding", "ppci.opt.transform")
@@ -229,6 +280,9 @@ class ExprHarness(Harness):
         self.W = width_for(expr)
         self.leaves = shape_leaves(expr)
         self.nodes = shape_nodes(expr)
+
+    def shim_extra(self):
+        return {"math": _SymMath()}
 
     def inputs(self, mk):
         d = {}
@@ -337,14 +391,15 @@ class ExprHarness(Harness):
     def post(self, inp, out):
         d0, v0 = eval_shape(self.expr, inp)
         if not out.ok:
-            return {"exception-only-if-undefined": sym_not(d0)}
+            if out.exc == "CompilerError":
+                # a diagnosed refusal is tolerated only where the source expression is undefined
+                return {"compiler-error-only-if-undefined": sym_not(d0)}
+            # the pass must not crash, whatever the constants are (zero divisor, negative or
+            # oversized shift count included: such operations are to be left to run time)
+            return {"pass-does-not-crash": False}
         o = out.value
         after = o["after"]
         has_param = shape_has_param(self.expr)
-        if (self.pas == "fold" and not has_param and after[0] != "const"
-                and all(op in o["handled"] for op in shape_ops(self.expr))):
-            raise core.EngineError("ConstantFolder left an all-constant expression of operators it lists in "
-                                   "ConstantFolder.ops unfolded: the check would be vacuous")
         rng = [R.in_range(v, *TYPES[t]) for t, v in o["consts"]]
         posts = {"consts-in-range": sym_and(*rng) if rng else True}
         if has_param or len(o["steps"]) != len(self.nodes):
@@ -368,7 +423,14 @@ class ExprHarness(Harness):
             else:
                 d, va = eval_desc(st[1], inp)
                 v = R.cast(va, *TYPES[e[1]])
-            posts[f"value-agrees@{i}:{e[0]}{e[1] if e[0] == 'bin' else ''}"] = implies(d, sym_and(dr, vr == v))
+            tag = f"{i}:{e[0]}{e[1] if e[0] == 'bin' else ''}"
+            posts[f"value-agrees@{tag}"] = implies(d, sym_and(dr, vr == v))
+            # a node whose operands are constants now, of an operator the pass lists in its table (or a
+            # cast), may stay unfolded only for operand values for which it is undefined (left to run
+            # time).  Otherwise the pass would not evaluate anything and the check would be vacuous.
+            if (self.pas == "fold" and e[0] != "c" and st[0][0] != "const"
+                    and all(x[0] == "const" for x in st[1:]) and (e[0] == "cast" or e[1] in o["handled"])):
+                posts[f"folds-when-defined@{tag}"] = sym_not(d)
         return posts
 
 
@@ -481,7 +543,7 @@ def jobs(tier, seed):
     if thorough:
         plan = [(ty, lay) for ty in TYNAMES for lay in ("one", "two")]
     else:
-        plan = [("i8", "one"), ("i32", "one"), ("u16", "one"), ("u64", "one"), ("i16", "two"), ("u8", "two")]
+        plan = [("i8", "one"), ("i32", "one"), ("u16", "two"), ("u64", "two")]
     for ty, lay in plan:
         for op1 in FOLD_OPS:
             for op2 in FOLD_OPS:
